@@ -396,6 +396,7 @@ def _check(args):
         if nm not in form and not (nm == "setting" and "settings" in form) and not (nm == "choice" and "choices" in form):
             form[nm] = [{"a": "x", "b": "y"}, {"a": "1"}]
     multiline = False
+    pipes = False
     if i % 4 == 3:
         # a cell holding line breaks (or characters str.splitlines() would break on): representable in csv and spreadsheets, not in md
         rx = rng_for(seed, PID, "multiline", i)
@@ -404,6 +405,16 @@ def _check(args):
             r, k = rx.choice(cands)
             r[k] = rx.choice(["First line\nSecond line", "a\r\nb", "x\u2028y", "p\x85q", "one\n\ntwo", "l1\nl2\nl3", "u\u2029v"])
             multiline = True
+    if i % 7 == 5 and not multiline:
+        # cells holding pipes: representable in csv and spreadsheets, not in md.  Delivered WITHOUT a file type the text must still reach
+        # the CSV reader although it holds enough pipes to look like a Markdown table (defect F11, repaired)
+        rx = rng_for(seed, PID, "pipes", i)
+        cands = [(r, k) for r in form["survey"] for k in r if k.startswith(("label", "hint")) and "${" not in r[k]]
+        if cands:
+            r, k = rx.choice(cands)
+            r[k] = rx.choice(["a | b | c | d | e | f", "|||||", "x|y|z|1|2|3|4", "| a | b | c |", "one | two | three | four | five | six"])
+            multiline = True
+            pipes = True
     typed_cells = rng.random() < 0.6
     pad = rng.random() < 0.6
     interior_gap = rng_for(seed, PID, "gap", i).choice([1, 30, 59, 60]) if i % 5 == 2 else 0
@@ -449,13 +460,17 @@ def _check(args):
                      ("md/path", lambda: convert(path_of(md.encode("utf-8"), ".md")))]
         variants += [("csv/str+type", lambda: convert(csvs, file_type=".csv")), ("csv/bytes+type", lambda: convert(csvs.encode("utf-8"), file_type=".csv")),
                      ("csv/path", lambda: convert(path_of(csvs.encode("utf-8"), ".csv")))]
+        if pipes:
+            # the untyped deliveries, first so that they are always among the chosen ones
+            variants = [("csv/str", lambda: convert(csvs)), ("csv/bytes", lambda: convert(csvs.encode("utf-8"))),
+                        ("csv/path-no-suffix", lambda: convert(path_of(csvs.encode("utf-8"), "")))] + variants
         variants += [("xlsx/bytes", lambda: convert(xb)), ("xlsx/BytesIO+type", lambda: convert(io.BytesIO(xb), file_type=".xlsx")),
                      ("xlsx/path", lambda: convert(path_of(xb, ".xlsx"))), ("xlsm/path", lambda: convert(path_of(xb, ".xlsm"))),
                      ("xlsx/file", lambda: convert(open(path_of(xb, ".xlsx"), "rb")))]
         variants += [("xls/fake", lambda: convert_xls_fake(gr, typed_cells))]
         if multiline:
             variants = [v for v in variants if not v[0].startswith("md")]
-        chosen = rng.sample(variants, 6) + [variants[-1]]
+        chosen = (variants[:3] if pipes else []) + rng.sample(variants, 6) + [variants[-1]]
         for name, fn in chosen:
             try:
                 r = fn()
@@ -508,16 +523,6 @@ FINDING_INPUTS = {}
 
 
 def replay_finding(slug):
-    if slug == "F11-csv-with-pipes-read-as-md":
-        from pyxform.xls2xform import convert
-        from pyxform.errors import PyXFormError
-        csvs = '"survey"\n"","type","name","label"\n"","text","q","a|b|c|d|e|f"\n'
-        try:
-            convert(csvs)
-        except PyXFormError as e:
-            if "You must have a sheet named 'survey'" in str(e):
-                return {"input": csvs, "what": str(e)[:200]}
-        return None
     return None
 
 
